@@ -493,6 +493,7 @@ package whispertool
 //@   invariant nan: forall j :: 0 <= j && j < i ==> bits(values[j]) == 9221120237041090561
 //@ loop (*Whisper).fetchRawPoints#0
 //@   invariant cnt: 0 <= i && i <= len(points) && off == fromOffset + 12 * i && off <= untilOffset
+//@   invariant ring: fromOffset == archOf(w, archiveID).offset + 12 * idxOf(archOf(w, archiveID), baseOf(w, archiveID), fromInterval) ==> idxOf(archOf(w, archiveID), baseOf(w, archiveID), fromInterval) + i <= countOf(w, archiveID)
 //@   invariant read: forall j :: 0 <= j && j < i ==> points[j].Time == slotTime(frow(w.fileBuf), fromOffset + 12 * j) && bits(points[j].Value) == slotBits(frow(w.fileBuf), fromOffset + 12 * j)
 //@ loop (*Whisper).fetchRawPoints#1
 //@   invariant cnt: 0 <= i && i <= len(points) && off == fromOffset + 12 * i && off <= arcEndOffset
@@ -501,6 +502,8 @@ package whispertool
 //@   invariant cnt: 0 <= i && i <= len(points) && off <= untilOffset && (i == len(points) || off == arcStartOffset + 12 * (i - (arcEndOffset - fromOffset) / 12))
 //@   invariant i_low: (arcEndOffset - fromOffset) / 12 <= i || i == len(points)
 //@   invariant k1: arcEndOffset - fromOffset == 12 * ((arcEndOffset - fromOffset) / 12) && arcStartOffset == archOf(w, archiveID).offset
+//@   invariant k1eq: fromOffset == archOf(w, archiveID).offset + 12 * idxOf(archOf(w, archiveID), baseOf(w, archiveID), fromInterval) && arcEndOffset == archOf(w, archiveID).offset + 12 * countOf(w, archiveID)
+//@                 ==> (arcEndOffset - fromOffset) / 12 == countOf(w, archiveID) - idxOf(archOf(w, archiveID), baseOf(w, archiveID), fromInterval)
 //@   invariant read1: forall j :: 0 <= j && j < i && j < (arcEndOffset - fromOffset) / 12 ==> points[j].Time == slotTime(frow(w.fileBuf), fromOffset + 12 * j) && bits(points[j].Value) == slotBits(frow(w.fileBuf), fromOffset + 12 * j)
 //@   invariant read2: forall j :: (arcEndOffset - fromOffset) / 12 <= j && j < i ==> points[j].Time == slotTime(frow(w.fileBuf), arcStartOffset + 12 * (j - (arcEndOffset - fromOffset) / 12))
 //@                 && bits(points[j].Value) == slotBits(frow(w.fileBuf), arcStartOffset + 12 * (j - (arcEndOffset - fromOffset) / 12))
